@@ -205,6 +205,38 @@ def subjects(prog, tier):
     return S
 
 
+def run_subjects(chk, prog, tier, rule_id="TABLE=EXACT", only=None, floor=14):
+    """Decision-table comparison for the geometry predicates (all, or those whose name starts with one of `only`)."""
+    r = chk.rule(rule_id, "the decision tree extracted from the function (symbolic interpretation, sign atoms over integer "
+                 "polynomials of the coordinates) partitions the integer grid and agrees with the exact reference definition on "
+                 "every realisable sign class, degenerate configurations included" +
+                 ("" if only is None else " -- shared with C16, subjects: " + ", ".join(only)), floor=floor)
+    total_rows = total_real = total_grid = 0
+    for s in subjects(prog, tier):
+        if only is not None and not any(s["name"].startswith(o) for o in only):
+            continue
+        fn = s["fn"]
+        try:
+            rows = interpret_tree(prog, fn, s["args"], lattice=True, post=s["post"], this=s.get("this"),
+                                  grid=(s["vars"], s["side"]))
+        except (Unsupported, PathLimit) as e:
+            raise AnalysisBroken("%s is outside the interpreter's subset: %s" % (s["name"], e))
+        res = compare_tree(rows, s["vars"], s["side"], s["spec"], outcome_map=s["omap"])
+        total_rows += res.rows
+        total_real += res.realisable
+        total_grid += res.grid
+        r.count(res.realisable)
+        if res.mismatches:
+            m = res.mismatches[0]
+            r.bad(s["name"], fn.where(), "on the sign class %s (witness %s, %d grid tuples) the function %s but exact arithmetic gives %s"
+                  % (m["atoms"], m["witness"], m["tuples"], m["outcome"], m["expected"]))
+        else:
+            r.ok(s["name"], fn.where(), "%d paths, %d realisable, grid %d" % (res.rows, res.realisable, res.grid))
+        for smp in res.samples[:1]:
+            chk.sample({"rule": rule_id, "subject": s["name"], "class": smp})
+    return total_rows, total_real, total_grid
+
+
 def run(chk):
     prog = chk.load(None)
     tier = chk.tier
@@ -236,30 +268,7 @@ def run(chk):
         else:
             r0.bad(fq, fn.where(), "default tolerance `%s` is %s, not 0.0" % (pname, dv))
 
-    r = chk.rule("TABLE=EXACT", "the decision tree extracted from the function (symbolic interpretation, sign atoms over integer "
-                 "polynomials of the coordinates) partitions the integer grid and agrees with the exact reference definition on "
-                 "every realisable sign class, degenerate configurations included", floor=14)
-    total_rows = total_real = total_grid = 0
-    for s in subjects(prog, tier):
-        fn = s["fn"]
-        try:
-            rows = interpret_tree(prog, fn, s["args"], lattice=True, post=s["post"], this=s.get("this"),
-                                  grid=(s["vars"], s["side"]))
-        except (Unsupported, PathLimit) as e:
-            raise AnalysisBroken("%s is outside the interpreter's subset: %s" % (s["name"], e))
-        res = compare_tree(rows, s["vars"], s["side"], s["spec"], outcome_map=s["omap"])
-        total_rows += res.rows
-        total_real += res.realisable
-        total_grid += res.grid
-        r.count(res.realisable)
-        if res.mismatches:
-            m = res.mismatches[0]
-            r.bad(s["name"], fn.where(), "on the sign class %s (witness %s, %d grid tuples) the function %s but exact arithmetic gives %s"
-                  % (m["atoms"], m["witness"], m["tuples"], m["outcome"], m["expected"]))
-        else:
-            r.ok(s["name"], fn.where(), "%d paths, %d realisable, grid %d" % (res.rows, res.realisable, res.grid))
-        for smp in res.samples[:1]:
-            chk.sample({"rule": "TABLE=EXACT", "subject": s["name"], "class": smp})
+    total_rows, total_real, total_grid = run_subjects(chk, prog, tier)
     chk.extra["decision_tree_paths"] = total_rows
     chk.extra["realisable_sign_classes"] = total_real
     chk.extra["grid_tuples_classified"] = total_grid
